@@ -649,6 +649,34 @@ def sweep_c04():
     return n, bad
 
 
+def sweep_source_identity():
+    """positions refer to the text the caller supplied: well-formed documents behind unusual first characters (byte order mark, NBSP,
+    blank lines, a comment); every named symbol's range must slice to its name in the SUPPLIED text and its line must agree."""
+    doc = 'package a.b;\nimport c.d.E;\ninterface It {\n    void m(in Missing x);\n    const int K = 1;\n}\n'
+    n, bad = 0, []
+    for prefix in ('', '\ufeff', '\ufeff\n', '\n\n', ' \t', '/* \u00e9 */ ', '// \ufeff\n', '\u00a0'):
+        text = prefix + doc
+        tb = text.encode('utf-8')
+        r = replay.project({'f.aidl': text})
+        n += 1
+        if r.get('panic'):
+            bad.append({'prefix': repr(prefix), 'what': 'panic: %s' % r['panic'][:80]}); continue
+        fr = r['files']['f.aidl']['parse']
+        rgs = [('diagnostic', None, d['range']) for d in fr['diags']]
+        if fr['ast'] is not None:
+            rgs += [(s_['tag'], s_['name'], s_['range']) for s_ in fr['ast']['symbols_all'] if s_['tag'] in ('package', 'import', 'interface', 'method', 'arg', 'const')]
+        elif prefix in ('', '\n\n', ' \t', '/* \u00e9 */ ', '// \ufeff\n'):
+            bad.append({'prefix': repr(prefix), 'what': 'a well-formed document behind ordinary layout did not parse'})
+        for tag, name, rg in rgs:
+            if rg[1] > len(tb) or rg[0] > rg[1]:
+                bad.append({'prefix': repr(prefix), 'what': '%s range %s outside the supplied text' % (tag, rg[:2])}); continue
+            if tb[:rg[0]].count(b'\n') + 1 != rg[2]:
+                bad.append({'prefix': repr(prefix), 'what': '%s range starts at offset %d on line %d of the supplied text, reported line %d' % (tag, rg[0], tb[:rg[0]].count(b'\n') + 1, rg[2])})
+            if name is not None and tb[rg[0]:rg[1]].decode('utf-8', 'replace') != name:
+                bad.append({'prefix': repr(prefix), 'what': '%s name range %s slices to %r in the supplied text, the name is %r' % (tag, rg[:2], tb[rg[0]:rg[1]].decode('utf-8', 'replace'), name)})
+    return n, bad
+
+
 def sweep_c09():
     """all method sequences of length <= 4 over 2 names x {no code, 2 codes}, constants interleaved; reference written from the statement."""
     import itertools
@@ -705,7 +733,7 @@ def sweep_doc_attachment():
     """every documentable construct x {annotated, plain} x {doc comment, none, doc comment of the previous member}: the `doc` field."""
     n, bad = 0, []
     for ann in ('', '@Ann ', '@Ann(k=1)\n  ', '@A @B '):
-        for sep in (' ', '\n  ', '\r\n  ', ' /* c */ '):
+        for sep in (' ', '\n  ', '\r\n  ', ' /* c */ ', ' /**/ ', '\n  //** banner **\n  '):
             def d(text):
                 return '/** %s */%s' % (text, sep)
             files = {
@@ -899,7 +927,8 @@ def sweep_c12(depth=2, rand_histories=40, rand_len=25):
     import itertools
     ids = ['a', 'b', 'c']
     ops = ['add %s {dir}/%s' % (i, c) for i in ids for c in H_CONTENTS] + ['remove %s' % i for i in ids] + ['validate',
-           'addfile {dir}/c0.aidl', 'addfile {dir}/c1.aidl', 'addfile {dir}/missing.aidl', 'addfile {dir}/latin1.aidl']
+           'addfile {dir}/c0.aidl', 'addfile {dir}/c1.aidl', 'addfile {dir}/missing.aidl', 'addfile {dir}/latin1.aidl',
+           'addpath {dir}/c0.aidl {dir}/c1.aidl', 'addpath {dir}/c1.aidl {dir}/c2.aidl']
     lines = []
     for h in itertools.product(ops, repeat=depth):
         lines.append('reset')
@@ -908,13 +937,23 @@ def sweep_c12(depth=2, rand_histories=40, rand_len=25):
     lines.append('reset')
     lines += [l.replace('@', '{dir}/') for l in ('add a @c0.aidl', 'add b @c1.aidl', 'add c @c2.aidl', 'validate', 'remove b', 'validate', 'add b @c1.aidl', 'validate', 'remove c',
                                                 'validate', 'add c @c2.aidl', 'add a @c3.aidl', 'validate', 'add a @c0.aidl', 'validate', 'add b @c2.aidl', 'validate', 'remove a', 'add a @c0.aidl')]
+    # the path-keyed parser: a file loaded from disk, overwritten in memory under the same id, then loaded again (and the other way round)
+    lines.append('reset')
+    lines += [l.replace('@', '{dir}/') for l in ('addfile @c0.aidl', 'addpath @c0.aidl @c1.aidl', 'addfile @c0.aidl', 'addfile @c1.aidl', 'addpath @c1.aidl @c2.aidl', 'validate', 'addfile @c1.aidl',
+                                                'addpath @c0.aidl @c3.aidl', 'addfile @c0.aidl', 'addfile @c0.aidl')]
+    # replacements that leave the TREE unchanged (same ranges) but change the syntax diagnostics, and back; also a replacement that changes only a comment
+    lines.append('reset')
+    lines += [l.replace('@', '{dir}/') for l in ('add a @g0.aidl', 'validate', 'add a @g1.aidl', 'validate', 'add a @g0.aidl', 'validate', 'add a @g2.aidl', 'validate', 'add b @g1.aidl', 'add b @g0.aidl')]
     # longer random histories (validate interleaved), seeded
     import os, random
     rnd = random.Random(int(os.environ.get('VERIF_SEED', '1')))
     for _ in range(rand_histories):
         lines.append('reset')
         lines += [rnd.choice(ops) for _k in range(rand_len)]
-    r = replay.history(H_CONTENTS, lines, extra_files={'latin1.aidl': b'package p; parcelable B\xe9;'})
+    r = replay.history(H_CONTENTS, lines, extra_files={'latin1.aidl': b'package p; parcelable B\xe9;',
+                                                       'g0.aidl': b'package p; interface I { void f();           }',
+                                                       'g1.aidl': b'package p; interface I { void f(); int oops; }',
+                                                       'g2.aidl': b'package p; interface I { void f(); /* doc */ }'})
     if 'crash' in r:
         raise RuntimeError('history replay failed: %s' % str(r)[:300])
     return r['steps'], r['bad']
